@@ -63,7 +63,8 @@ fn one(id: String, seed: u64, bits: u8, kind: VolKind, rng: &mut SplitMix64, sin
         *fr.entry(k.clone()).or_default() += v;
     }
     let strict = !rng.chance(1, 10);
-    let cfg = Cfg::new(strict, false, ClockMode::Const);
+    let mut cfg = Cfg::new(strict, false, ClockMode::Const);
+    cfg.optorder = optorder_of(&id);
     let mut cx = Ctx::new(id, "foreign", seed, vol_of(&built), cfg);
     cx.step(Op::Raw(built.writes.clone()));
     cx.h.comment(built.gtruth.join("\n"));
